@@ -12,8 +12,9 @@ import subprocess
 import sys
 import shutil
 
-WT = '/tmp/seed-confirm-wt'
-TGT = '/tmp/seed-confirm-target'
+_SFX = os.environ.get('SEED_CONFIRM_SLOT', '')
+WT = '/tmp/seed-confirm-wt' + _SFX
+TGT = '/tmp/seed-confirm-target' + _SFX
 
 
 def sh(cmd, cwd=None, timeout=1800):
@@ -106,6 +107,7 @@ def confirm(seed):
 if __name__ == '__main__':
     for seed in sys.argv[1:]:
         res = confirm(seed.rstrip('/'))
+        res['head'] = subprocess.run('git -C /repo rev-parse --short HEAD', shell=True, capture_output=True, text=True).stdout.strip()
         json.dump(res, open(os.path.join(seed, 'confirm.json'), 'w'), indent=1)
         print(seed, 'confirmed' if res.get('confirmed') else 'NOT CONFIRMED', json.dumps({k: v for k, v in res.items() if 'tail' not in k}))
     shutil.rmtree(TGT, ignore_errors=True)
